@@ -152,8 +152,10 @@ CHECKS["C04"] = dict(
 CHECKS["C14"] = dict(
     text=("Theorems about the token-level file model of write_vtk/read_vtk (triangle and tetra), for every vertex list, every "
           "non-empty connectivity list, every rounding function and scalar type: read(write(v, t)) = (round32 v, t) -- identical "
-          "connectivity values, order and winding; and EVERY proper line-prefix of a written file (header, vertex section, between "
-          "sections, element section) yields no mesh. Number<->text conversion (Python str / C strtod) is abstracted and covered by "
+          "connectivity values, order and winding; EVERY proper line-prefix of a written file (header, vertex section, between "
+          "sections, element section) yields no mesh; an OFF file per the format definition (any number of leading comment lines, "
+          "counts, vertices, faces '3 a b c') loads to the mesh it describes; files of the wrong kind (tetra VTK read as triangles and "
+          "vice versa, VTK read as OFF) yield no mesh. Number<->text conversion (Python str / C strtod) is abstracted and covered by "
           "correspondence: the model writer must produce the token stream of the real file and the model readers (VTK, OFF) must return "
           "what the real readers return on written, foreign and every line-truncated file. FreeSurfer binary surfaces, Gmsh, triangle "
           "strips, write_ev/read_ev (bit-exact, all shapes, edit histories) and write_vfunc/read_vfunc are decided by round-trip oracles on "
@@ -178,8 +180,8 @@ CHECKS["C17"] = dict(
           "the solver returns, c_min <= c_max, mean = (c_min+c_max)/2, Gauss = c_min*c_max and each returned direction is +- one of the "
           "solver's eigenvectors; for every result with orthonormal eigenvectors the directions are unit, mutually orthogonal and "
           "orthogonal to the returned normal, the normal lies on the side of the vertex normal and (u_min, u_max, n) is right-handed; "
-          "curvature_tria returns two unit, orthogonal directions in the triangle plane whenever the triangle and the projected "
-          "direction are not degenerate (1e-8 guards inactive). Correspondence: the model reproduces the tensors handed to the solver "
+          "curvature_tria returns two unit, orthogonal directions in the triangle plane on every non-degenerate triangle, whatever "
+          "direction was pooled from the vertices (after fix f3ef02f). Correspondence: the model reproduces the tensors handed to the solver "
           "(np.linalg.eig/eigh wrapped in the harness process) and, fed with the solver's result, the outputs. Invariance under "
           "similarity, cylinder and sphere behaviour are decided by oracles on the implementation (partial); directions inside "
           "eigenspaces of dimension >= 2 do not rotate with the mesh (known finding F21)."),
@@ -191,10 +193,13 @@ CHECKS["C19"] = dict(
           "(hence unit area, centred); every iteration's answer X satisfies (M + step A0) X = M V coordinate-wise with M the lumped "
           "mass of the current iterate and A0 the fixed stiffness; max_iter = 0 returns the normalised copy; a mesh returned by "
           "tria_spherical_project's final stage has the input connectivity, passed the documented gates and has every vertex at "
-          "distance 100. spsolve's recorded answers are verified inside Coq against the model's systems (certificate), the stopping "
+          "distance 100; the spectral embedding built from the eigenfunctions (oracle) has all coordinates in [-1,1] and, after the "
+          "sign choices, every eigenfunction is positively aligned with its axis (mean position of its high region vs its low region); "
+          "the returned flow mesh has unit area and centred centroid whenever the last solver answer spans a positive area. "
+          "spsolve's recorded answers are verified inside Coq against the model's systems (certificate), the stopping "
           "rule and the returned vertices are replayed; sphere fixed point, radial spread, orientation and axis alignment of the "
-          "projection, argument-untouched are decided by oracles on the implementation; the eigen-embedding part of the projection "
-          "is not modelled (partial)."),
+          "projection as a whole, argument-untouched are decided by oracles on the implementation; ARPACK inside the projection is an "
+          "oracle whose eigenfunctions are recorded and fed to the model of the embedding (partial)."),
     design="6/C19", technique="Coq proof over R parametric in the solver oracle + in-Coq certificate replay of recorded solves")
 
 CHECKS["C18"] = dict(
